@@ -181,3 +181,29 @@ Proof.
                          (fun f => gen_ev file_ty false (gen_print_file f)) normalize_file); try assumption.
   intros f [H1 H2]. now apply gen_file_roundtrip.
 Qed.
+
+(* ---- load histories: the tails of Load and LoadFromIR commit the new rule set in the same way, and no statement of the
+   loader (packages ruleguard, ruleguard/ir) writes into an IR value it was handed *)
+Lemma gen_commit_paths_agree :
+  forall (ruleset err : Type) (m : list ruleset -> ruleset + err) (e : option ruleset) (r : ruleset),
+    gen_commit_load ruleset err m e r = gen_commit_ir ruleset err m e r.
+Proof. intros. reflexivity. Qed.
+
+Lemma gen_no_ir_write_sites : gen_ir_write_sites = [].
+Proof. reflexivity. Qed.
+
+Lemma gen_mixed_history_equals_source_history
+      (src irfile pkginfo ruleset err : Type) (convert : src -> irfile * pkginfo + err)
+      (load_file : option pkginfo -> irfile -> (ruleset + err) * irfile) (merge : list ruleset -> ruleset + err) :
+  (forall pk f, snd (load_file pk f) = f) ->
+  (forall p f, fst (load_file (Some p) f) = fst (load_file None f)) ->
+  forall (srcs : nat -> option src) (st : lstate irfile ruleset) (h : list (lstep src)),
+    store_ok src irfile pkginfo ruleset err convert load_file srcs (l_store irfile ruleset st) ->
+    (forall k, In (FromIR src k) h -> nth_error (l_store irfile ruleset st) k <> None) ->
+    lrun src irfile pkginfo ruleset err convert load_file merge (gen_commit_load ruleset err) (gen_commit_ir ruleset err) st
+         (map (to_source src srcs) h)
+    = lrun src irfile pkginfo ruleset err convert load_file merge (gen_commit_load ruleset err) (gen_commit_ir ruleset err) st h.
+Proof.
+  intros Hf Hp. apply mixed_history_equals_source_history; try assumption.
+  intros. apply gen_commit_paths_agree.
+Qed.
